@@ -135,7 +135,7 @@ theorem beforeDeleteA_noPanic {s : State} {id : Id} (h : [] ∉ evRoles (s.a.loo
       split at hp
       · cases hp
       · cases hp
-    · cases hp
+    · simp only [pure, Except.pure] at hp; cases hp
 
 theorem cascadeLoop_noPanic {del : State → Id → Except Err State} {busy : List Id} {fuel : Nat}
     (hd : ∀ s j s', InvCore s → BossOK busy s → del s j = .ok s' → DelPost busy s s' j ∧ List.Sublist s'.a s.a)
